@@ -2,7 +2,7 @@
 """copies finished sub-agent seeds /tmp/wt/Cxx/SEED/{A,B} into /verif/seeded/Cxx-{A,B}/ (patch.diff, demo.py, meta.json)"""
 import glob, json, os, shutil, sys
 V = os.path.dirname(os.path.dirname(os.path.abspath(__file__)))
-for d in sorted(glob.glob("/tmp/wt/C*/SEED/*") + glob.glob("/tmp/wt2/C*/SEED/*") + glob.glob("/tmp/wt3/C*/SEED/*") + glob.glob("/tmp/wt4/C*/SEED/*") + glob.glob("/tmp/wt5/C*/SEED/*") + glob.glob("/tmp/wt6/C*/SEED/*") + glob.glob("/tmp/wt7/C*/SEED/*") + glob.glob("/tmp/wt8/C*/SEED/*") + glob.glob("/tmp/wt9/C*/SEED/*") + glob.glob("/tmp/wt10/C*/SEED/*") + glob.glob("/tmp/wt11/C*/SEED/*")):
+for d in sorted(glob.glob("/tmp/wt/C*/SEED/*") + glob.glob("/tmp/wt2/C*/SEED/*") + glob.glob("/tmp/wt3/C*/SEED/*") + glob.glob("/tmp/wt4/C*/SEED/*") + glob.glob("/tmp/wt5/C*/SEED/*") + glob.glob("/tmp/wt6/C*/SEED/*") + glob.glob("/tmp/wt7/C*/SEED/*") + glob.glob("/tmp/wt8/C*/SEED/*") + glob.glob("/tmp/wt9/C*/SEED/*") + glob.glob("/tmp/wt10/C*/SEED/*") + glob.glob("/tmp/wt11/C*/SEED/*") + glob.glob("/tmp/wt13/C*/SEED/*")):
     pid = d.split("/")[3]; x = os.path.basename(d)
     if not all(os.path.exists(os.path.join(d, f)) for f in ("patch.diff", "demo.py", "meta.json")):
         continue
